@@ -174,7 +174,11 @@ def check_text(case, stats):
     if gh.names_existing_path(text):
         stats.label("excluded_known_F1")
         return
-    # (a string source is split at LF only: a lone CR is an ordinary - blank - character of its line, also at the start of a line)
+    # (a string source is split at LF only: a lone CR is an ordinary - blank - character of its line, also at the start of a line;
+    # a CR directly in front of the line terminator - "\r\r\n", "x\r" as last line - is terminator territory and stays out)
+    if any(l.endswith("\r") for l in text.replace("\r\n", "\n").split("\n")):
+        stats.label("CR-before-line-terminator-skipped")
+        return
     real = gh.parse(text, dflt)
     if real[0] == "ok":
         nloc, hard = slice_check(case, text, real[1])
@@ -219,6 +223,8 @@ def unit_model(a):
 
 def stray_cr(text):
     """some documents get carriage returns that are not part of a CR LF pair: LF CR line ends, a CR inside the indentation, before a cell"""
+    if "\r" in text:
+        return text   # documents written with CR LF stay as they are (a CR directly before CR LF is the line terminator's business, not a stray one)
     k = len(text) % 9
     if k == 0:
         return text.replace("\n", "\n\r")
